@@ -8,8 +8,9 @@ regenerated from the nessai source on every run; every theorem below is about it
 
 A history is any list of checkpoints (either `save_existing` mode, any version) and
 trainings (each ending in a weights save), each either completed or killed at a crash
-point `⟨j, inside⟩`: `j` file operations completed, and, if `inside = some k`, the next
-one started and `k` bytes written.  After a kill the run is restarted with resume and
+point `⟨j, inside, flushed⟩`: `j` file operations completed; if `inside = some k`, the next
+one started and `k` bytes written; and a file written through a handle that was not yet
+closed keeps only its first `flushed` bytes (any number), under whatever name it has.  After a kill the run is restarted with resume and
 goes on (so histories contain any number of kills).  `SafeAfter kind P hist` says: the
 resume after `hist` does not raise and returns the last completed checkpoint (a fresh
 start if there is none) or a checkpoint attempted after it.
@@ -20,14 +21,21 @@ open NessaiVerif.CrashFS
 
 /-- After any history whatsoever (both samplers, both `save_existing` modes, any number of
 kills anywhere, including inside the pickle write and inside the weights write) the
-checkpoint file and its `.old` are never torn: torn bytes only ever live in the temp file. -/
+checkpoint file and its `.old` are never torn: torn bytes only ever live in the temp file.
+(This needs the rename to come AFTER the close of the temp file's handle: a file renamed
+while its handle is open carries its unflushed tail to the final name.) -/
 theorem reachable_wellformed (kind : Kind) (hist : List Ev) :
     ((replay kind Gen.protocol hist).fs cb).isTorn = false ∧
     ((replay kind Gen.protocol hist).fs co).isTorn = false :=
   hist_untorn kind Gen.protocol gen_dumpSpec hist initSys rfl rfl
 
 example : ∃ j, j < 9 ∧ ((replay .std Gen.protocol [.ckpt true 1 0 9 none,
-    .ckpt true 2 0 9 (some ⟨j, some 4⟩)]).fs ⟨.ckpt, .temp⟩) = .torn 4 .tornPickle := by decide
+    .ckpt true 2 0 9 (some ⟨j, some 4, 0⟩)]).fs ⟨.ckpt, .temp⟩) = .torn 4 .tornPickle := by decide
+
+-- durability is in the model: killed after the write but before the handle is closed, the
+-- temp file keeps only what had been flushed (here 4 of 9 bytes)
+example : ∃ j, j < 9 ∧ ((replay .std Gen.protocol [.ckpt true 1 0 9 none,
+    .ckpt true 2 0 9 (some ⟨j, none, 4⟩)]).fs ⟨.ckpt, .temp⟩) = .torn 4 .tornPickle := by decide
 
 /-- Checkpoint protocol, both samplers, both `save_existing` modes, every history in which
 no weights save is killed inside its write (checkpoints may be killed anywhere, any number
@@ -45,8 +53,8 @@ theorem crash_safe_state (kind : Kind) (hist : List Ev) (h : ∀ e ∈ hist, e.n
       (fun fs w len e cp hok hq => train_keeps_untorn fs w len e cp hok hq)
       rfl hist h
 
-example : ∀ e ∈ [Ev.ckpt true 1 0 9 none, .train 1 20 .runtime none, .ckpt false 2 1 9 (some ⟨2, some 3⟩),
-    .train 2 20 .runtime (some ⟨2, none⟩), .ckpt true 3 1 9 (some ⟨2, none⟩)], e.noTornTrain = true := by decide
+example : ∀ e ∈ [Ev.ckpt true 1 0 9 none, .train 1 20 .runtime none, .ckpt false 2 1 9 (some ⟨2, some 3, 0⟩),
+    .train 2 20 .runtime (some ⟨2, none, 0⟩), .ckpt true 3 1 9 (some ⟨2, none, 0⟩)], e.noTornTrain = true := by decide
 
 /-- The same statement for the standard sampler alone, named for what it leaves out:
 a kill INSIDE the in-place `torch.save` of `FlowModel.save_weights` is excluded
@@ -55,7 +63,7 @@ theorem weights_crash_safe_partial (hist : List Ev) (h : ∀ e ∈ hist, e.noTor
     SafeAfter .std Gen.protocol hist :=
   crash_safe_state .std hist h
 
-example : ∀ e ∈ [Ev.train 1 20 .runtime none, .ckpt true 1 1 9 none, .train 2 20 .runtime (some ⟨1, none⟩)],
+example : ∀ e ∈ [Ev.train 1 20 .runtime none, .ckpt true 1 1 9 none, .train 2 20 .runtime (some ⟨1, none, 0⟩)],
     e.noTornTrain = true := by decide
 
 /-- … and the excluded case is a real counter-example (defect F3) whenever the weights
@@ -65,12 +73,12 @@ checkpoint, then a kill 5 bytes into the write of the next weights save (operati
 theorem weights_crash_safe_partial_fails_without :
     (∃ j, j < 9 ∧ resume .std (Gen.resumeCfgWith ⟨true, true, [], .reraise⟩) 0
       (replay .std (Gen.protocolWith ⟨true, true, [], .reraise⟩)
-        [.train 1 20 .runtime none, .ckpt true 1 1 9 none, .train 2 20 .runtime (some ⟨j, some 5⟩)]).fs
+        [.train 1 20 .runtime none, .ckpt true 1 1 9 none, .train 2 20 .runtime (some ⟨j, some 5, 0⟩)]).fs
       = .raises .fileNotFound) ∧
     (∃ j, j < 9 ∧ resume .std (Gen.resumeCfgWith ⟨true, true, [], .reraise⟩) 0
       (replay .std (Gen.protocolWith ⟨true, true, [], .reraise⟩)
         [.train 1 20 .osError none, .ckpt true 1 1 9 none, .ckpt true 2 1 9 none,
-         .train 2 20 .osError (some ⟨j, some 5⟩)]).fs = .raises .osError) := by
+         .train 2 20 .osError (some ⟨j, some 5, 0⟩)]).fs = .raises .osError) := by
   constructor <;> decide
 
 /-- The counter-example in general (defect F3), for ANY weights-reload shape `h` that does
@@ -101,7 +109,7 @@ theorem weights_torn_witness (h : WeightsHandler) (fs : FS) (top v n k : Nat) (e
 example : catches (WeightsHandler.mk true true [] .reraise).excs .osError = false := by decide
 example : ∃ j, j < 9 ∧
     let fs := (replay .std (Gen.protocolWith ⟨true, true, [], .reraise⟩) [.train 1 20 .runtime none,
-      .ckpt true 1 1 9 none, .train 2 20 .runtime (some ⟨j, some 5⟩)]).fs
+      .ckpt true 1 1 9 none, .train 2 20 .runtime (some ⟨j, some 5, 0⟩)]).fs
     fs cb = .complete 1 1 ∧ fs wb = .torn 5 .runtime ∧ fs co = .absent := by decide
 
 /-- What a repair can rely on: when a weights save that started from a complete weights
@@ -147,13 +155,13 @@ theorem weights_crash_safe_status :
     (Gen.weightsHandler.safe = false ∧
       ∃ j, j < 9 ∧ (resume .std Gen.protocol.cfg 0 (replay .std Gen.protocol
         [.train 1 20 .osError none, .ckpt true 1 1 9 none,
-         .train 2 20 .osError (some ⟨j, some 5⟩)]).fs).version = none) := by
+         .train 2 20 .osError (some ⟨j, some 5, 0⟩)]).fs).version = none) := by
   first
     | exact Or.inl ⟨by decide, fun hist => weights_crash_safe_of_handler Gen.weightsHandler (by decide) hist⟩
     | exact Or.inr ⟨by decide, by decide⟩
 
 example : ∃ j, j < 9 ∧ (replay .std Gen.protocol [.train 1 20 .osError none, .ckpt true 1 1 9 none,
-    .train 2 20 .osError (some ⟨j, some 5⟩)]).fs wb = .torn 5 .osError := by decide
+    .train 2 20 .osError (some ⟨j, some 5, 0⟩)]).fs wb = .torn 5 .osError := by decide
 
 /-- Importance sampler: the per-level weights layout is crash-safe for EVERY history, kills
 inside a level's weights write included — a torn `level_k/model.pt` is always beyond the
@@ -162,6 +170,6 @@ theorem ins_levels_safe (hist : List Ev) : SafeAfter .ins Gen.protocol hist :=
   ins_hist_safe Gen.protocol gen_dumpSpec gen_saveSpec (gen_resumeSpec _) hist
 
 example : ∃ j, j < 9 ∧ ((replay .ins Gen.protocol [.train 1 20 .runtime none, .ckpt false 1 0 9 none,
-    .train 2 20 .runtime (some ⟨j, some 7⟩)]).fs ⟨.level 1, .base⟩) = .torn 7 .runtime := by decide
+    .train 2 20 .runtime (some ⟨j, some 7, 0⟩)]).fs ⟨.level 1, .base⟩) = .torn 7 .runtime := by decide
 
 end NessaiVerif.C11
